@@ -416,7 +416,12 @@ def _run_case(case):
                 kw = {}
                 if s.get("where") is not None:
                     kw["where"] = np.asarray(s["where"]["mask"], dtype=bool).reshape(s["where"]["shape"])
-                r = getattr(mg, s["fn"])(*ops, out=env.t[s["t"]], **kw)
+                if s["fn"] == "clip_lo":
+                    r = mg.clip(ops[0], ops[1], None, out=env.t[s["t"]])
+                elif s["fn"] == "clip_hi":
+                    r = mg.clip(ops[0], None, ops[1], out=env.t[s["t"]])
+                else:
+                    r = getattr(mg, s["fn"])(*ops, out=env.t[s["t"]], **kw)
                 if r is not env.t[s["t"]]:
                     identity_lost.append(s["t"])
                 del ops, r
